@@ -8,7 +8,7 @@ BUILT = os.environ.get("BUILT", "").split() or [l.strip() for l in open(os.path.
 
 P = {
  "C01": ("exploration", "reference-model monitor (lock-step map) over generated op sequences", "§5/C01",
-   "Every Get/ListKeys/Fold/Stat.KeyNum of thousands of generated operation sequences (boundary-landing and multi-block values, rotations, batches, merges) in a covering set of configurations is compared with a reference map; exploration is the right level because the quantifier is over unbounded sequences and only executions can be observed.",
+   "Every Get/ListKeys/Fold/Stat.KeyNum of thousands of generated operation sequences (boundary-landing and multi-block values, rotations, batches, merges) in a covering set of configurations is compared with a reference map, plus special families (populations up to 280 K keys, one mapped file beyond 512 MiB, one file beyond 4 GiB with a torn tail, writes refused by the environment); exploration is the right level because the quantifier is over unbounded sequences and only executions can be observed.",
    "Trusts the reference map, the Go runtime and that vhook I/O events report real file offsets (used only to aim value lengths at block boundaries)."),
  "C02": ("exploration", "dump-before-Close vs dump-after-Open monitor + exhaustive end-offset sweep", "§5/C02",
    "Dump before Close is compared with dump after Open (and with the model) for generated histories with restarts under independently drawn reader configurations, plus a sweep that ends the log at every in-block offset the writer can produce.",
@@ -20,7 +20,7 @@ P = {
    "Images at every I/O event between NewBatch and Commit's return must reopen to the state before or after the batch, never a part; committed batches must survive restarts, merges and (Sync batches) power-loss images.",
    "Same image model as C03."),
  "C05": ("exploration", "layered reference model (overlay on map) compared after every staged call", "§5/C05",
-   "Batch.Get after every staged call, the dump after Commit, and post-commit rejection are compared with a layered model over generated batches on databases whose keys live in rotated and active files.",
+   "Batch.Get after every staged call, the dump after Commit, and post-commit rejection are compared with a layered model over generated batches on databases whose keys live in rotated and active files, plus single batches of up to 140 K records.",
    "Trusts the layered model; the issuing goroutine only calls Batch methods while the batch is open."),
  "C06": ("exploration", "model dumps at five points around Merge + independent on-disk audit, with paused/racing writers", "§5/C06",
    "Dumps before/after Merge and after 1..3 restarts are compared with the model; the adopted files are decoded independently and must hold exactly the live records; racing writers are interleaved at the merge scan hook.",
@@ -35,7 +35,7 @@ P = {
    "The full API mix is driven from up to 16 goroutines under -race; race reports with engine frames, recovered panics, internal-inconsistency errors and deadlocks (stack signature) are violations.",
    "Race detector sees only executed paths and has bounded history; watchdog expiry without the deadlock signature is inconclusive."),
  "C10": ("exploration", "cursor model over a sorted snapshot compared after every iterator call", "§5/C10",
-   "Every Rewind/Seek/Next/Valid/Key/Value of generated call sequences, at index level and DB level, for all index types, shard counts and directions, is compared with a cursor over the sorted snapshot taken at creation, with writes interleaved.",
+   "Every Rewind/Seek/Next/Valid/Key/Value of generated call sequences, at index level and DB level, for all index types, shard counts and directions, is compared with a cursor over the sorted snapshot taken at creation, with writes interleaved, several iterators alive at once, populations up to 300 K keys and returned value slices overwritten by the caller.",
    "Seek targets behind the cursor are never generated (unclaimed by the statement)."),
  "C11": ("exploration", "three-way round-trip monitor (bytes written, engine readers, independent decoder) over the offset x length grid", "§5/C11",
    "For every reachable start offset and every boundary-landing length class the record is written, read back sequentially and by position, decoded by vfmt and compared with os.Stat; thorough enumerates the full grid.",
@@ -47,7 +47,7 @@ P = {
    "Per-file written/durable offsets are maintained from the I/O events and the configured policy is evaluated at every API return, rotation and close; thorough cross-checks the hook log against strace.",
    "A completed fsync/msync event is taken as durability."),
  "C14": ("exploration", "differential transcripts of lock-step runs under configuration pairs", "§5/C14",
-   "The same generated sequence is run under several configurations; full transcripts (results, errors, iteration orders, recovered mapping) must be identical, and data-file bytes for batch-free runs.",
+   "The same generated sequence is run under several configurations; full transcripts (results, errors, iteration orders, recovered mapping) must be identical, and data-file bytes for batch-free runs; iterators that seek in any direction are compared between configurations with equal shard count.",
    "Transcripts are also checked against the model so a difference can be attributed."),
  "C15": ("exploration", "canary/poison buffers at the client boundary + retained-slice monitor", "§5/C15",
    "One reused key buffer and one reused value buffer are poisoned after every return and verified before the next call; returned slices are kept with private copies and re-compared after later operations.",
@@ -56,7 +56,7 @@ P = {
    "Child processes and goroutines race Open/Close on one directory; every holder creates an O_EXCL token, so overlap is witnessed exactly; rejected Opens must report the in-use error and leave the directory fingerprint unchanged; failed Opens must release the lock.",
    "flock semantics of the host kernel."),
  "C17": ("exploration", "Stat compared with sizes recomputed by the independent decoder after every step", "§5/C17",
-   "After every step Stat is compared with key count, file count and live-record bytes recomputed from an independent scan of the directory; file sizes are checked against the limit with the single-oversized-record exception.",
+   "After every step Stat is compared with key count, file count and live-record bytes recomputed from an independent scan of the directory; file sizes are checked against the limit with the single-oversized-record exception; a Stat issued concurrently with writers must equal one quiescent state of its call window as a whole.",
    "Trusts vfmt (cross-validated by C11)."),
  "C18": ("exploration", "hint/data cross-decode + two-path Open comparison", "§5/C18",
    "After each merge the hint file and rewritten files are decoded independently and cross-checked entry by entry; the directory is then opened once through the hint and once by scanning, and dumps and sizes must agree.",
